@@ -335,7 +335,7 @@ func (g *groupsGen) stmts(depth int, prefix string, n int) []*Sx {
 			}
 			out = append(out, T("combo", append([]*Sx{X(path), g.hs(2)}, uses...)...))
 			g.probe([]string{"GET", "POST", "PUT", "DELETE", "HEAD", "PATCH", "OPTIONS"}, prefix, full)
-		case r == 18 && rng.Intn(2) == 0:
+		case r == 18 && rng.Intn(2) == 0 && strings.HasPrefix(path, "/"): // (a relative path glued to another group's last segment would leave the restricted route syntax of these programs)
 			// a ComboRoute kept in a variable: made here, given methods here or in whatever scope comes later
 			g.held = append(g.held, heldCombo{id: g.nextR, path: path, used: map[string]bool{}})
 			out = append(out, T("cnew", I(g.nextR), X(path), g.hs(2)))
